@@ -3,7 +3,22 @@ import os
 import sys
 
 
+def _normalise_signals():
+    """A shell that starts the check in the background (`cmd &`, nohup, a job runner) hands it SIGINT *ignored*, and
+    Python then never installs its KeyboardInterrupt handler.  The cancellation seam asks the interpreter whether a
+    KeyboardInterrupt could be delivered (seams.LineCancel), so how the check was launched would decide whether
+    cancellations are injected at all - an environment dependence.  The simulator owns this too: the interpreter's
+    default SIGINT handler is installed explicitly (worker processes inherit it)."""
+    import signal
+    try:
+        if signal.getsignal(signal.SIGINT) is not signal.default_int_handler:
+            signal.signal(signal.SIGINT, signal.default_int_handler)
+    except (ValueError, OSError):       # not the main thread / not permitted: leave as is
+        pass
+
+
 def main(argv):
+    _normalise_signals()
     if len(argv) < 2:
         sys.__stdout__.write("%s\n" % __doc__)
         return 2
